@@ -46,11 +46,12 @@ pub fn run(tier: Tier) -> i32 {
     ctx.set_rule("E5 full grid: 12 small symbol programs (literal-ended, match-ended so that size-1 falls inside a copy, trained so that an extra symbol costs no input, empty) x end marker {absent, present} x header size field {all-ones, n, n-1, n+1, 0, 2^63, 2^64-2} x option {ReadFromHeader, ReadHeaderButUseProvided(None|Some s), UseProvided(None|Some s)} with s in {n, n-1, n+1, 0} x trailing bytes {none, 3} x {one-shot from a slice / bytewise source / 3-byte BufReader, Stream fed whole, Stream fed bytewise}. Oracle: size S in effect => (Ok => exactly S bytes, equal to the program's output prefix); S on a symbol boundary => Ok; S strictly inside a copy => Err; marker before S => Err. No size in effect => with marker and no trailing bytes Ok with the full output; trailing bytes => Err; no marker => Err. distinct_nontrivial = cells in which the size in effect disagrees with the data, or a marker is combined with a size, or no size and no marker.");
     ctx.assume("known finding K1 (marker-less acceptance at EOF with code == 0) is matched by its call-site signature only");
     let mut progs = programs(ctx.seed);
-    if tier == Tier::Thorough {
+    {
         let al = super::c01::automaton_alphabet(ctx.seed);
-        for i in 0..crate::explore::count_upto(al.len(), 3) {
+        let adepth = tier.pick(2usize, 3usize);
+        for i in 0..crate::explore::count_upto(al.len(), adepth) {
             let mut p: Vec<Sym> = vec![Sym::L(0x31), Sym::L(0x32), Sym::L(0x33), Sym::L(0x34)];
-            p.extend(crate::explore::nth_seq(al.len(), 3, i).iter().map(|&k| al[k]));
+            p.extend(crate::explore::nth_seq(al.len(), adepth, i).iter().map(|&k| al[k]));
             progs.push(p);
         }
     }
@@ -103,7 +104,7 @@ pub fn run(tier: Tier) -> i32 {
         }
     }
     let t0 = Instant::now();
-    let settings: Vec<(u32, u32, u32)> = tier.pick(vec![(3u32, 0u32, 2u32), (0, 0, 0), (2, 1, 3)], vec![(3, 0, 2), (0, 0, 0), (2, 1, 3), (0, 4, 4), (8, 0, 0), (4, 4, 0), (1, 0, 1), (0, 0, 4), (0, 4, 0), (4, 0, 4), (1, 2, 3), (2, 2, 1)]);
+    let settings: Vec<(u32, u32, u32)> = tier.pick(vec![(3u32, 0u32, 2u32), (0, 0, 0), (2, 1, 3), (0, 4, 4), (8, 0, 0)], vec![(3, 0, 2), (0, 0, 0), (2, 1, 3), (0, 4, 4), (8, 0, 0), (4, 4, 0), (1, 0, 1), (0, 0, 4), (0, 4, 0), (4, 0, 4), (1, 2, 3), (2, 2, 1)]);
     par_for((cells.len() * settings.len()) as u64, |ix| {
         let (pi, marker, hfield, sopt, trailing, runner) = cells[ix as usize % cells.len()];
         let (lc, lp, pb) = settings[ix as usize / cells.len()];
